@@ -69,6 +69,12 @@ CHECKS.update({
     "C13": dict(cat="exploration", text="All nested Python values in the bound (strings over the escaping alphabet, ints, bools, None, floats, lists and dicts to nesting 3) x 8 construction contexts; the rendered text is read back by an independent CST reader and compared type-exactly; double rendering and re-parse stability.", ref="DESIGN.md 2/C13", note="Trusted base: independent CST-to-Python reader (own unescaper). NUL is excluded from the alphabet (Nix strings cannot represent it).", technique="exhaustive enumeration of a bounded value space x contexts, independent read-back"),
 })
 
+CHECKS.update({
+    "C15": dict(cat="model_checking", text="Four exhaustive sub-checks: (1) purity - structural snapshot before/after rebuild and three consecutive rebuilds over the E1 space and every state of the depth-2 edit graph; (2) thread schedules - stateless exploration of every interleaving of 2-3 real threads (each on its own document, chosen to collide on the source-bytes / source-path context variables, the per-thread parser and the identity-keyed context registry) with at most 2 (thorough: 3 for two-thread harnesses) preemptions, scheduling points at every bytecode access to a shared-state object found by a census; (3) all k! processing orders of k documents in one process against fresh-process results; (4) digests under 4 hash seeds x 3 working directories.", ref="DESIGN.md 2/C15", note="Trusted base: CPython 3.13 sys.monitoring INSTRUCTION events and threading.Semaphore hand-off; the census (ContextVars, thread-locals, rebound module globals, containers whose state changes during a line-traced serial run); cyclic GC is switched off while threads run and collected between executions; every execution starts from emptied shared containers. Interleavings inside tree-sitter's C parser are not modelled (each thread owns its parser).", technique="stateless model checking of thread interleavings on the real implementation (controlled scheduler, iterative preemption bounding, replay-verified counterexamples) + exhaustive purity/history/configuration enumeration"),
+    "C16": dict(cat="exploration", text="Input class x command x channel as real subprocesses `python -m nix_manipulator` (plus a second-round `test` on every emitted text) and many in-process main() calls per document over the E2 operation alphabet; stdout, exit status and channel agreement are compared with the library result computed in the harness.", ref="DESIGN.md 2/C16", note="Reference = parse/rebuild/set_value/remove_value called directly; subprocess environment PYTHONUTF8=1.", technique="exhaustive product enumeration (input class x command x channel) with a differential oracle against the library API"),
+    "C17": dict(cat="exploration", text="Directory layout x import chains of 1-3 hops (every hop spelling: ./ ../ bare a/b, detour, absolute) x 6 working directories x 4 entry-path spellings x chdir between parse and lookup; decoys with different values in every directory and in a mirror tree make a wrong base yield a wrong value; error shapes (string argument, call argument, <spath>, missing file).", ref="DESIGN.md 2/C17", note="Scratch tree created and removed by the check; values planted by the harness are the oracle.", technique="exhaustive product enumeration of layouts/chains/working directories with planted-value oracle"),
+})
+
 NOT_YET = {
 }
 
